@@ -157,4 +157,253 @@ def timReadFaultN (ssz vsz soff voff r rc lane : Nat) : Option Fault :=
 theorem timReadFault_eq (t : TimingRF) (w : TWf) (r rc lane : Nat) :
     timReadFault t w r rc lane = timReadFaultN t.sfile.size (t.vfileOf w).size w.soff w.voff r rc lane := rfl
 
+/-- emulator `ReadOperand`, SGPR operand: `readFromRegFile` reads one or two registers whatever the count -/
+abbrev emuSOutR (r rc : Nat) : Prop := 102 < regIndex r + min (cnt rc) 2
+abbrev emuVOutR (r rc lane : Nat) : Prop := 16384 < lane * 256 + regIndex r + min (cnt rc) 2
+
+theorem span_eq (rc : Nat) : (if rc ≤ 1 then 4 else 8) = 4 * min (cnt rc) 2 := by
+  unfold cnt; split <;> split <;> omega
+
+/-- **`ReadOperand`: the complete list of disagreements.** The eight special registers never fault in
+    either store; SGPR/VGPR ranges disagree when exactly one bounds test trips (the emulator looks
+    at the first two registers only, timing at the whole range); an unsupported register with a
+    count that makes it longer than 64 bytes panics differently. -/
+theorem read_operand_fault_disagree (t : TimingRF) (w : TWf) (r rc lane : Nat) :
+    emuReadOperandFault r rc lane ≠ timReadFault t w r rc lane ↔
+      (isSReg r = true ∧ ¬ (emuSOutR r rc ↔ timSOut t w r rc)) ∨
+      (isVReg r = true ∧ ¬ (emuVOutR r rc lane ↔ timVOut t w r rc lane)) ∨
+      (isSReg r = false ∧ isVReg r = false ∧ (isSpecial7 r || r == R_EXECHI) = false ∧ 64 < numBytes r rc) := by
+  by_cases cS : isSReg r = true
+  · have cV := sv_excl r cS
+    have hsp : (isSpecial7 r || r == R_EXECHI) = false := by
+      cases hx : (isSpecial7 r || r == R_EXECHI)
+      · rfl
+      · have := (special_not_s r hx).1; rw [cS] at this; cases this
+    rw [timReadFault_s t w r rc lane cS]
+    have : emuReadOperandFault r rc lane = if emuSOutR r rc then some .bounds else none := by
+      unfold emuReadOperandFault
+      simp only [cV, cS, Bool.false_eq_true, if_false, if_true, span_eq]
+      by_cases b : 102 < regIndex r + min (cnt rc) 2
+      · have : ¬ regIndex r * 4 + 4 * min (cnt rc) 2 ≤ 408 := by omega
+        simp [b, this]
+      · have : regIndex r * 4 + 4 * min (cnt rc) 2 ≤ 408 := by omega
+        simp [b, this]
+    rw [this, ite_bounds_ne]
+    simp [cS, cV, hsp]
+  by_cases cV : isVReg r = true
+  · have hsp : (isSpecial7 r || r == R_EXECHI) = false := by
+      cases hx : (isSpecial7 r || r == R_EXECHI)
+      · rfl
+      · have := (special_not_s r hx).2; rw [cV] at this; cases this
+    rw [timReadFault_v t w r rc lane cV]
+    have : emuReadOperandFault r rc lane = if emuVOutR r rc lane then some .bounds else none := by
+      unfold emuReadOperandFault
+      simp only [cV, if_true, span_eq]
+      by_cases b : 16384 < lane * 256 + regIndex r + min (cnt rc) 2
+      · have : ¬ lane * 1024 + regIndex r * 4 + 4 * min (cnt rc) 2 ≤ 65536 := by omega
+        simp [b, this]
+      · have : lane * 1024 + regIndex r * 4 + 4 * min (cnt rc) 2 ≤ 65536 := by omega
+        simp [b, this]
+    rw [this, ite_bounds_ne]
+    simp [cS, cV, hsp]
+  have cS' : isSReg r = false := by simpa using cS
+  have cV' : isVReg r = false := by simpa using cV
+  by_cases hsp : (isSpecial7 r || r == R_EXECHI) = true
+  · unfold emuReadOperandFault timReadFault
+    simp [cS', cV', hsp]
+  · have hsp' : (isSpecial7 r || r == R_EXECHI) = false := by simpa using hsp
+    have h7 : isSpecial7 r = false := by
+      cases h : isSpecial7 r
+      · rfl
+      · simp [h] at hsp'
+    have hx : (r == R_EXECHI) = false := by
+      cases h : (r == R_EXECHI)
+      · rfl
+      · simp [h] at hsp'
+    unfold emuReadOperandFault timReadFault emuReadFault
+    simp only [cS', cV', hsp', h7, hx, Bool.false_eq_true, if_false]
+    by_cases c0 : numBytes r rc > 64
+    · simp [c0]
+    · have : ¬ 64 < numBytes r rc := c0
+      simp [c0, this]
+
+/-- **`WriteOperand`: the complete list of disagreements**: `exec_hi` with count 2, and SGPR/VGPR
+    operands of one or two registers for which exactly one bounds test trips. -/
+theorem write_operand_fault_disagree (t : TimingRF) (w : TWf) (r rc lane : Nat) :
+    emuWriteOperandFault r rc lane ≠ timWriteOperandFault t w r rc lane ↔
+      (r = R_EXECHI ∧ rc = 2) ∨
+      (isSReg r = true ∧ cnt rc ≤ 2 ∧ ¬ (102 < regIndex r + cnt rc ↔ timSOut t w r rc)) ∨
+      (isVReg r = true ∧ cnt rc ≤ 2 ∧ ¬ (16384 < lane * 256 + regIndex r + cnt rc ↔ timVOut t w r rc lane)) := by
+  by_cases cS : isSReg r = true
+  · have cV := sv_excl r cS
+    have hn := numBytes_of4 r rc (byteSize_of_s r cS)
+    have hx : r ≠ R_EXECHI := by intro e; subst e; exact absurd cS (by decide)
+    have hsp : (isSpecial7 r || r == R_EXECHI) = false := by
+      cases hx : (isSpecial7 r || r == R_EXECHI)
+      · rfl
+      · have := (special_not_s r hx).1; rw [cS] at this; cases this
+    have hne : ∀ c, (isSpecial7 c || c == R_EXECHI) = true → (r == c) = false := by
+      intro c hc
+      cases h : (r == c)
+      · rfl
+      · have := beq_iff_eq.mp h; subst this; rw [hsp] at hc; cases hc
+    unfold emuWriteOperandFault timWriteOperandFault emuWriteFault timWriteFault
+    simp only [hn, cS, cV, if_true, hne R_SCC (by decide), hne R_VCC (by decide), hne R_VCCLO (by decide),
+      hne R_VCCHI (by decide), hne R_EXEC (by decide), hne R_EXECLO (by decide), hne R_EXECHI (by decide),
+      hne R_M0 (by decide), Bool.or_self, Bool.false_eq_true, if_false]
+    by_cases c8 : 4 * cnt rc > 8
+    · have : ¬ cnt rc ≤ 2 := by omega
+      simp [c8, this, hx]
+    · have c2 : cnt rc ≤ 2 := by omega
+      simp only [c8, if_false, Nat.lt_irrefl]
+      by_cases a : 102 < regIndex r + cnt rc <;> by_cases b : t.sfile.size < w.soff + 4 * (regIndex r + cnt rc)
+      all_goals
+        (have e1 : (regIndex r * 4 + 4 * cnt rc ≤ 408) = ¬ (102 < regIndex r + cnt rc) := by
+           apply propext; constructor <;> intro <;> omega
+         have e2 : (regIndex r * 4 + w.soff + 4 * cnt rc ≤ t.sfile.size) = ¬ (t.sfile.size < w.soff + 4 * (regIndex r + cnt rc)) := by
+           apply propext; constructor <;> intro <;> omega
+         simp [e1, e2, a, b, c2, hx])
+  by_cases cV : isVReg r = true
+  · have cS' : isSReg r = false := by simpa using cS
+    have hn := numBytes_of4 r rc (byteSize_of_v r cV)
+    have hx : r ≠ R_EXECHI := by intro e; subst e; exact absurd cV (by decide)
+    have hsp : (isSpecial7 r || r == R_EXECHI) = false := by
+      cases hx : (isSpecial7 r || r == R_EXECHI)
+      · rfl
+      · have := (special_not_s r hx).2; rw [cV] at this; cases this
+    have hne : ∀ c, (isSpecial7 c || c == R_EXECHI) = true → (r == c) = false := by
+      intro c hc
+      cases h : (r == c)
+      · rfl
+      · have := beq_iff_eq.mp h; subst this; rw [hsp] at hc; cases hc
+    unfold emuWriteOperandFault timWriteOperandFault emuWriteFault timWriteFault
+    simp only [hn, cS', cV, if_true, hne R_SCC (by decide), hne R_VCC (by decide), hne R_VCCLO (by decide),
+      hne R_VCCHI (by decide), hne R_EXEC (by decide), hne R_EXECLO (by decide), hne R_EXECHI (by decide),
+      hne R_M0 (by decide), Bool.or_self, Bool.false_eq_true, if_false]
+    by_cases c8 : 4 * cnt rc > 8
+    · have : ¬ cnt rc ≤ 2 := by omega
+      simp [c8, this, hx]
+    · have c2 : cnt rc ≤ 2 := by omega
+      simp only [c8, if_false, Nat.lt_irrefl]
+      by_cases a : 16384 < lane * 256 + regIndex r + cnt rc <;>
+        by_cases b : (t.vfileOf w).size < w.voff + lane * 1024 + 4 * (regIndex r + cnt rc)
+      all_goals
+        (have e1 : (lane * 1024 + regIndex r * 4 + 4 * cnt rc ≤ 65536) = ¬ (16384 < lane * 256 + regIndex r + cnt rc) := by
+           apply propext; constructor <;> intro <;> omega
+         have e2 : (regIndex r * 4 + lane * 1024 + w.voff + 4 * cnt rc ≤ (t.vfileOf w).size) =
+             ¬ ((t.vfileOf w).size < w.voff + lane * 1024 + 4 * (regIndex r + cnt rc)) := by
+           apply propext; constructor <;> intro <;> omega
+         simp [e1, e2, a, b, c2, hx])
+  have cS' : isSReg r = false := by simpa using cS
+  have cV' : isVReg r = false := by simpa using cV
+  have hrc : rc ≤ 1 ∨ rc = 2 ∨ 3 ≤ rc := by omega
+  unfold emuWriteOperandFault timWriteOperandFault emuWriteFault timWriteFault
+  simp only [cS', cV', Bool.false_eq_true, if_false]
+  by_cases a1 : r = R_SCC
+  · subst a1
+    rcases hrc with h | h | h
+    · have h2 : ¬ 2 ≤ rc := by omega
+      have hne : rc ≠ 2 := by omega
+      simp [hne, numBytes, bs_scc, R_SCC, R_VCC, R_VCCLO, R_VCCHI, R_EXEC, R_EXECLO, R_EXECHI, R_M0, h, h2]
+    · subst h; simp [numBytes, bs_scc, R_SCC, R_VCC, R_VCCLO, R_VCCHI, R_EXEC, R_EXECLO, R_EXECHI, R_M0]
+    · have h2 : 2 ≤ rc := by omega
+      have h1 : ¬ rc ≤ 1 := by omega
+      have e8 : 8 < 8 * rc := by omega
+      have e4 : 8 < 4 * rc := by omega
+      have hne : rc ≠ 2 := by omega
+      simp [numBytes, bs_scc, R_SCC, R_VCC, R_VCCLO, R_VCCHI, R_EXEC, R_EXECLO, R_EXECHI, R_M0, h2, h1, e8, e4, hne]
+  by_cases a2 : r = R_VCC
+  · subst a2
+    rcases hrc with h | h | h
+    · have h2 : ¬ 2 ≤ rc := by omega
+      have hne : rc ≠ 2 := by omega
+      simp [hne, numBytes, bs_vcc, R_SCC, R_VCC, R_VCCLO, R_VCCHI, R_EXEC, R_EXECLO, R_EXECHI, R_M0, h, h2]
+    · subst h; simp [numBytes, bs_vcc, R_SCC, R_VCC, R_VCCLO, R_VCCHI, R_EXEC, R_EXECLO, R_EXECHI, R_M0]
+    · have h2 : 2 ≤ rc := by omega
+      have h1 : ¬ rc ≤ 1 := by omega
+      have e8 : 8 < 8 * rc := by omega
+      have e4 : 8 < 4 * rc := by omega
+      have hne : rc ≠ 2 := by omega
+      simp [numBytes, bs_vcc, R_SCC, R_VCC, R_VCCLO, R_VCCHI, R_EXEC, R_EXECLO, R_EXECHI, R_M0, h2, h1, e8, e4, hne]
+  by_cases a3 : r = R_VCCLO
+  · subst a3
+    rcases hrc with h | h | h
+    · have h2 : ¬ 2 ≤ rc := by omega
+      have hne : rc ≠ 2 := by omega
+      simp [hne, numBytes, bs_vcclo, R_SCC, R_VCC, R_VCCLO, R_VCCHI, R_EXEC, R_EXECLO, R_EXECHI, R_M0, h, h2]
+    · subst h; simp [numBytes, bs_vcclo, R_SCC, R_VCC, R_VCCLO, R_VCCHI, R_EXEC, R_EXECLO, R_EXECHI, R_M0]
+    · have h2 : 2 ≤ rc := by omega
+      have h1 : ¬ rc ≤ 1 := by omega
+      have e8 : 8 < 8 * rc := by omega
+      have e4 : 8 < 4 * rc := by omega
+      have hne : rc ≠ 2 := by omega
+      simp [numBytes, bs_vcclo, R_SCC, R_VCC, R_VCCLO, R_VCCHI, R_EXEC, R_EXECLO, R_EXECHI, R_M0, h2, h1, e8, e4, hne]
+  by_cases a4 : r = R_VCCHI
+  · subst a4
+    rcases hrc with h | h | h
+    · have h2 : ¬ 2 ≤ rc := by omega
+      have hne : rc ≠ 2 := by omega
+      simp [hne, numBytes, bs_vcchi, R_SCC, R_VCC, R_VCCLO, R_VCCHI, R_EXEC, R_EXECLO, R_EXECHI, R_M0, h, h2]
+    · subst h; simp [numBytes, bs_vcchi, R_SCC, R_VCC, R_VCCLO, R_VCCHI, R_EXEC, R_EXECLO, R_EXECHI, R_M0]
+    · have h2 : 2 ≤ rc := by omega
+      have h1 : ¬ rc ≤ 1 := by omega
+      have e8 : 8 < 8 * rc := by omega
+      have e4 : 8 < 4 * rc := by omega
+      have hne : rc ≠ 2 := by omega
+      simp [numBytes, bs_vcchi, R_SCC, R_VCC, R_VCCLO, R_VCCHI, R_EXEC, R_EXECLO, R_EXECHI, R_M0, h2, h1, e8, e4, hne]
+  by_cases a5 : r = R_EXEC
+  · subst a5
+    rcases hrc with h | h | h
+    · have h2 : ¬ 2 ≤ rc := by omega
+      have hne : rc ≠ 2 := by omega
+      simp [hne, numBytes, bs_exec, R_SCC, R_VCC, R_VCCLO, R_VCCHI, R_EXEC, R_EXECLO, R_EXECHI, R_M0, h, h2]
+    · subst h; simp [numBytes, bs_exec, R_SCC, R_VCC, R_VCCLO, R_VCCHI, R_EXEC, R_EXECLO, R_EXECHI, R_M0]
+    · have h2 : 2 ≤ rc := by omega
+      have h1 : ¬ rc ≤ 1 := by omega
+      have e8 : 8 < 8 * rc := by omega
+      have e4 : 8 < 4 * rc := by omega
+      have hne : rc ≠ 2 := by omega
+      simp [numBytes, bs_exec, R_SCC, R_VCC, R_VCCLO, R_VCCHI, R_EXEC, R_EXECLO, R_EXECHI, R_M0, h2, h1, e8, e4, hne]
+  by_cases a6 : r = R_EXECLO
+  · subst a6
+    rcases hrc with h | h | h
+    · have h2 : ¬ 2 ≤ rc := by omega
+      have hne : rc ≠ 2 := by omega
+      simp [hne, numBytes, bs_execlo, R_SCC, R_VCC, R_VCCLO, R_VCCHI, R_EXEC, R_EXECLO, R_EXECHI, R_M0, h, h2]
+    · subst h; simp [numBytes, bs_execlo, R_SCC, R_VCC, R_VCCLO, R_VCCHI, R_EXEC, R_EXECLO, R_EXECHI, R_M0]
+    · have h2 : 2 ≤ rc := by omega
+      have h1 : ¬ rc ≤ 1 := by omega
+      have e8 : 8 < 8 * rc := by omega
+      have e4 : 8 < 4 * rc := by omega
+      have hne : rc ≠ 2 := by omega
+      simp [numBytes, bs_execlo, R_SCC, R_VCC, R_VCCLO, R_VCCHI, R_EXEC, R_EXECLO, R_EXECHI, R_M0, h2, h1, e8, e4, hne]
+  by_cases a7 : r = R_EXECHI
+  · subst a7
+    rcases hrc with h | h | h
+    · have h2 : ¬ 2 ≤ rc := by omega
+      have hne : rc ≠ 2 := by omega
+      simp [hne, numBytes, bs_exechi, R_SCC, R_VCC, R_VCCLO, R_VCCHI, R_EXEC, R_EXECLO, R_EXECHI, R_M0, h, h2]
+    · subst h; simp [numBytes, bs_exechi, R_SCC, R_VCC, R_VCCLO, R_VCCHI, R_EXEC, R_EXECLO, R_EXECHI, R_M0]
+    · have h2 : 2 ≤ rc := by omega
+      have h1 : ¬ rc ≤ 1 := by omega
+      have e8 : 8 < 8 * rc := by omega
+      have e4 : 8 < 4 * rc := by omega
+      have hne : rc ≠ 2 := by omega
+      simp [numBytes, bs_exechi, R_SCC, R_VCC, R_VCCLO, R_VCCHI, R_EXEC, R_EXECLO, R_EXECHI, R_M0, h2, h1, e8, e4, hne]
+  by_cases a8 : r = R_M0
+  · subst a8
+    rcases hrc with h | h | h
+    · have h2 : ¬ 2 ≤ rc := by omega
+      have hne : rc ≠ 2 := by omega
+      simp [hne, numBytes, bs_m0, R_SCC, R_VCC, R_VCCLO, R_VCCHI, R_EXEC, R_EXECLO, R_EXECHI, R_M0, h, h2]
+    · subst h; simp [numBytes, bs_m0, R_SCC, R_VCC, R_VCCLO, R_VCCHI, R_EXEC, R_EXECLO, R_EXECHI, R_M0]
+    · have h2 : 2 ≤ rc := by omega
+      have h1 : ¬ rc ≤ 1 := by omega
+      have e8 : 8 < 8 * rc := by omega
+      have e4 : 8 < 4 * rc := by omega
+      have hne : rc ≠ 2 := by omega
+      simp [numBytes, bs_m0, R_SCC, R_VCC, R_VCCLO, R_VCCHI, R_EXEC, R_EXECLO, R_EXECHI, R_M0, h2, h1, e8, e4, hne]
+  have hx : ¬ (r = R_EXECHI ∧ rc = 2) := fun h => a7 h.1
+  by_cases c8 : numBytes r rc > 8 <;> simp [c8, a1, a2, a3, a4, a5, a6, a7, a8, cS', cV']
+
 end C07
